@@ -96,12 +96,15 @@ fn kernel_rejects_keepalive(secs: u64) -> bool {
 }
 
 #[derive(Clone, Debug)]
-struct Plan { fail: Vec<bool>, quiet: Vec<bool> }
+struct Plan { fail: Vec<bool>, quiet: Vec<bool>,
+              /// the whole group of connections is queued in the backlog while the runtime's workers are kept busy,
+              /// so that the listener meets all of them in one poll
+              held: bool }
 
 impl Plan {
     fn n(&self) -> usize { self.fail.len() }
     fn json(&self, mode: Mode) -> Value {
-        json!({"kind": "conns", "mode": mode.name(), "n": self.n(), "fail": self.fail, "quiet": self.quiet,
+        json!({"kind": "conns", "mode": mode.name(), "n": self.n(), "fail": self.fail, "quiet": self.quiet, "held_until_queued": self.held,
                "keepalive_secs": match mode { Mode::Hook => Value::Null, Mode::HookKeepaliveOk => json!(KEEPALIVE_ACCEPTED), Mode::KeepaliveRejected => json!(KEEPALIVE_REJECTED) }})
     }
 }
@@ -155,9 +158,15 @@ fn attempt(plan: &Plan, mode: Mode, wait: Duration) -> Result<Vec<Seen>, String>
             std::thread::sleep(Duration::from_millis(40));
         }
         let mut socks: Vec<Result<TcpStream, String>> = Vec::new();
+        if plan.held {
+            // occupy every worker of the server's runtime (4) while the connections are being queued
+            for _ in 0..8 { fx.runtime.spawn(async { std::thread::sleep(Duration::from_millis(250)) }); }
+            std::thread::sleep(Duration::from_millis(30));
+        }
         for _ in i..j {
             socks.push(TcpStream::connect(("127.0.0.1", port)).map_err(|e| e.to_string()));
         }
+        if plan.held { std::thread::sleep(Duration::from_millis(300)); }
         for s in socks.iter_mut() {
             let w = if stuck { wait.min(Duration::from_millis(300)) } else { wait };
             let r = match s {
@@ -226,13 +235,14 @@ fn c19(rep: &mut Report, args: &Args, behaviours: &[Value], shard: usize, nshard
         let plan = Plan {
             fail: b["fail"].as_array().unwrap().iter().map(|x| x.as_bool().unwrap()).collect(),
             quiet: b["quiet"].as_array().unwrap().iter().map(|x| x.as_bool().unwrap()).collect(),
+            held: false,
         };
         plans.push((plan.clone(), Mode::Hook));
         // the keepalive-accepted configuration on every fifth sequence (all of them in the thorough tier)
         if accepts && (args.thorough() || k % 5 == 0) { plans.push((plan.clone(), Mode::HookKeepaliveOk)); }
         // keepalive rejected: every setup fails, only the arrival pattern matters
         if rejects && seen_timing.insert(plan.quiet.clone()) {
-            plans.push((Plan { fail: vec![true; plan.n()], quiet: plan.quiet.clone() }, Mode::KeepaliveRejected));
+            plans.push((Plan { fail: vec![true; plan.n()], quiet: plan.quiet.clone(), held: false }, Mode::KeepaliveRejected));
         }
         k += 1;
     }
@@ -241,10 +251,18 @@ fn c19(rep: &mut Report, args: &Args, behaviours: &[Value], shard: usize, nshard
     let extra = if args.thorough() { 120 } else { 12 };
     for _ in 0..extra {
         let n = 5 + rng.below(4) as usize;
-        let plan = Plan { fail: (0..n).map(|_| rng.below(3) == 0).collect(), quiet: (0..n).map(|_| rng.below(2) == 0).collect() };
+        let plan = Plan { fail: (0..n).map(|_| rng.below(3) == 0).collect(), quiet: (0..n).map(|_| rng.below(2) == 0).collect(), held: false };
         let mode = match rng.below(4) { 0 if rejects => Mode::KeepaliveRejected, 1 if accepts => Mode::HookKeepaliveOk, _ => Mode::Hook };
-        let plan = if mode == Mode::KeepaliveRejected { Plan { fail: vec![true; n], quiet: plan.quiet } } else { plan };
+        let plan = if mode == Mode::KeepaliveRejected { Plan { fail: vec![true; n], quiet: plan.quiet, held: false } } else { plan };
         plans.push((plan, mode));
+    }
+    // bursts: many connections are already queued when the listener is polled (routers reconnecting at once
+    // while the runtime is busy); the failing set-ups of one poll are then handled in one loop of poll_next
+    for n in if args.thorough() { vec![9usize, 12, 17, 33] } else { vec![9usize, 12] } {
+        let mut quiet = vec![false; n]; quiet[0] = true;
+        let mut fail = vec![true; n]; fail[n - 1] = false;
+        plans.push((Plan { fail, quiet: quiet.clone(), held: true }, Mode::Hook));
+        if rejects { plans.push((Plan { fail: vec![true; n], quiet, held: true }, Mode::KeepaliveRejected)); }
     }
 
     let base = Duration::from_millis(args.opt_usize("wait_ms", 2500) as u64);
